@@ -567,7 +567,7 @@ func c05gen(c *h.Ctx, yield func(*h.Case)) {
 		c.Count("class=script-many")
 		yield(&h.Case{Class: "script-many", Ops: ops})
 	}
-	for n := 0; n < c.Pick(120, 2000); n++ {
+	for n := 0; n < c.Pick(100, 2000); n++ {
 		cs := &h.Case{Class: "script"}
 		m := 0
 		running := map[int]bool{}
